@@ -26,7 +26,7 @@ EXPLANATION = (
 NOT_DECIDED = ["that every bonded pair ends at its minimum-image separation (depends on bond graph order and cell, numerical)",
                "anchor heuristics (guess_anchor_molecules)"]
 ASSUMPTIONS = ["Trajectory.__getitem__ (self[:]) returns a deep copy (decided by C03-R1)", "roundf / floorf / np.round / np.floor return integer-valued floats"]
-FLOORS = {"C11-R1": 6, "C11-R2": 18, "C11-R3": 5, "C11-R4": 4, "C11-R5": 3}
+FLOORS = {"C11-R1": 6, "C11-R2": 18, "C11-R3": 3, "C11-R4": 4, "C11-R5": 3}
 
 PXI = "mdtraj/geometry/src/image_molecules.pxi"
 TRAJ = "mdtraj/core/trajectory.py"
@@ -48,13 +48,7 @@ def check(ctx):
     # ---------------- R1, R3(py), R4: by evaluation on a model trajectory --------------------------------
     r1_by_evaluation(ctx)
     r4_no_topology_memo_on_trajectory(ctx)
-    for mname, kernel in (("make_molecules_whole", "_geometry.whole_molecules"), ("image_molecules", "_geometry.image_molecules")):
-        fn = ctx.py.func(TRAJ, "Trajectory." + mname)
-        calls = [n for n in walk_no_nested(fn) if isinstance(n, ast.Call) and call_name(n) == kernel]
-        if calls:
-            a1 = calls[0].args[1]
-            fresh = isinstance(a1, ast.Name) and any(isinstance(n, ast.Assign) and dotted(n.targets[0]) == a1.id and isinstance(n.value, ast.Call) and (call_name(n.value) or "").startswith("np.") for n in walk_no_nested(fn))
-            ctx.decide(fresh, "C11-R3", calls[0], TRAJ, "Trajectory." + mname, "kernel receives a derived cell array (np.asarray(...) of the computed unitcell_vectors)", "", "the cell passed to the kernel is `%s`" % src(a1))
+    # (the cell handed to the kernels: by value in r1_by_evaluation)
 
     # ---------------- R2 --------------------------------------------------------------------------------
     mod = ctx.py.mod(PXI)
@@ -220,6 +214,7 @@ def r1_by_evaluation(ctx):
     from ..poly import Poly, Rat
     mod = ctx.py.mod(TRAJ)
     methods = {q.split(".", 1)[1]: f for q, f in mod.functions.items() if q.startswith("Trajectory.") and q.count(".") == 1}
+    ucfuncs = {q_: f_ for q_, f_ in ctx.py.mod("mdtraj/utils/unitcell.py").functions.items() if "." not in q_}     # helpers a refactoring may call: evaluated from their source
     for q, kernel in (("Trajectory.make_molecules_whole", "_geometry.whole_molecules"), ("Trajectory.image_molecules", "_geometry.image_molecules")):
         fn = ctx.py.func(TRAJ, q)
         for inplace in (False, True):
@@ -230,24 +225,30 @@ def r1_by_evaluation(ctx):
             top = Obj(bonds=bonds, atoms=atoms)
             top.guess_anchor_molecules = lambda: [mols[0]]
             top.find_molecules = lambda: list(mols)
-            xyz, vec = Ten.sym("x", (2, 5, 3)), Ten.sym("box", (2, 3, 3))
+            xyz = Ten.sym("x", (2, 5, 3))
 
             def ctor(xyz_, topology, time=None, unitcell_lengths=None, unitcell_angles=None, **kw):
                 o = Obj(_xyz=xyz_, _topology=topology, _time=time, _unitcell_lengths=unitcell_lengths, _unitcell_angles=unitcell_angles, _rmsd_traces=None, _methods=methods, _tag="new", _lenient=True)
                 o._getters = getters
+                o._props = vprop
                 o._ctor = ctor
                 return o
-            getters = {"xyz": lambda s_: s_._xyz, "time": lambda s_: s_._time, "topology": lambda s_: s_._topology, "top": lambda s_: s_._topology,
+            getters = {"n_frames": lambda s_: s_._xyz.shape[0], "n_atoms": lambda s_: s_._xyz.shape[1],
+                       "xyz": lambda s_: s_._xyz, "time": lambda s_: s_._time, "topology": lambda s_: s_._topology, "top": lambda s_: s_._topology,
                        "unitcell_lengths": lambda s_: s_._unitcell_lengths, "unitcell_angles": lambda s_: s_._unitcell_angles,
-                       "unitcell_vectors": lambda s_: Ten(vec.shape, vec.data) if s_._unitcell_lengths is not None else None}
-            me = ctor(xyz, top, Ten.sym("t", (2,)), Ten.sym("len", (2, 3)), Ten.sym("ang", (2, 3)))
+                       }
+            vprop = {"unitcell_vectors": ctx.py.func(TRAJ, "Trajectory.unitcell_vectors.getter")}      # the real property, evaluated from its source
+            # a cell whose edge lengths stay the same while its angles change from frame to frame (its vectors, box[f], differ per frame)
+            ev0 = TenSym({})
+            me = ctor(xyz, top, Ten.sym("t", (2,)), ev0.to_ten([[3, 4, 5], [3, 4, 5]]), ev0.to_ten([[90, 90, 90], [80, 70, 60]]))
             me._tag = "self"
             log = {}
 
             def kern(ev, call):
                 log["args"] = [ev.ex(a) for a in call.args]
                 return None
-            ev = TenSym({}, models={kernel: kern, "deepcopy": lambda e_, c_: Obj(tag="copy"), "copy.deepcopy": lambda e_, c_: Obj(tag="copy")})
+            vec = TenSym({}, funcs=ucfuncs).run_fn(vprop["unitcell_vectors"], self=me)     # what the trajectory reports as its cell vectors, per frame
+            ev = TenSym({}, funcs=ucfuncs, models={kernel: kern, "deepcopy": lambda e_, c_: Obj(tag="copy"), "copy.deepcopy": lambda e_, c_: Obj(tag="copy")})
             try:
                 got = ev.run_fn(fn, self=me, inplace=inplace)
                 pr = []
